@@ -61,6 +61,16 @@ class C09Engine(Engine):
                     return ("veto", "sticky re-add")
                 return ("reject", f"dup-object-{kind}", DVE)
             if d["db"] is not None:
+                # contained in another database: the statement is silent about moving without deleting first,
+                # unless the add has to be rejected anyway (clash, foreign reference)
+                saved = d["db"]
+                d["db"] = None
+                try:
+                    e = self.expect(op)
+                finally:
+                    d["db"] = saved
+                if e[0] == "reject":
+                    return ("reject", e[1] + "-owned-elsewhere", e[2])
                 return ("veto", "object in another db")
             if kind == "table":
                 have = w.db_keys(db)
@@ -159,6 +169,10 @@ class C09Engine(Engine):
         if k == "t_add_idx":
             _, t, i = op
             if m[i]["table"] is not None:
+                # owned by a table already: silent in the statement, unless it has to be refused anyway
+                for s in m[i]["subjects"]:
+                    if s[0] == "col" and m[s[1]]["table"] != t:
+                        return ("reject", "index-foreign-col-owned-index", ["ColumnNotFoundError"])
                 return ("veto", "index owned")
             for s in m[i]["subjects"]:
                 if s[0] == "col" and m[s[1]]["table"] != t:
@@ -178,6 +192,8 @@ class C09Engine(Engine):
             if twins:
                 return ("either", k.replace("_", "-") + "-absent-twin", err, t, field, twins, True)
             return ("reject", k.replace("_", "-") + "-absent", err)
+        if k == "read":
+            return ("accept", "read-" + op[2]) if op[1] in m else ("veto", "unknown handle")
         if k in ("t_del_col_at", "t_del_idx_at"):
             _, t, pos = op
             field = "cols" if k == "t_del_col_at" else "idxs"
@@ -253,6 +269,13 @@ class C09Engine(Engine):
             return real[db].delete(real[h])
         if k == "rename":
             setattr(real[op[1]], op[2], op[3])
+            return None
+        if k == "read":
+            # evaluating a rendering is a read: whatever it returns or raises, the container must not change
+            try:
+                getattr(real[op[1]], op[2])
+            except Exception:
+                self.count("read-raised")
             return None
         if k == "t_add_col":
             return real[op[1]].add_column(real[op[2]])
@@ -426,7 +449,7 @@ def gen_universe(rng: random.Random, saturated: bool = False) -> World:
         w.group(rng.choice(["g", "h"]), rng.sample(tables, rng.randint(0, min(2, len(tables)))),
                 note=rng.choice([None, "gn"]), color=rng.choice([None, "#fff"]))
     for _ in range(rng.randint(2, 3)):
-        w.sticky(rng.choice(["n", "m"]), rng.choice(["text", "other"]))
+        w.sticky(rng.choice(["n", "m"]), rng.choice(["text", "other", ""]))
     for _ in range(2):
         w.project(rng.choice(["p", "q"]), items={"k": "v"} if rng.random() < 0.5 else None,
                   note=rng.choice(["", "pn"]))
@@ -435,7 +458,7 @@ def gen_universe(rng: random.Random, saturated: bool = False) -> World:
     return w
 
 
-OPW = {"add": 30, "delete": 18, "rename": 12, "add_bad": 2, "delete_bad": 2, "delete_project": 2,
+OPW = {"add": 30, "delete": 18, "rename": 12, "read": 4, "add_bad": 2, "delete_bad": 2, "delete_project": 2,
        "t_add_col": 5, "t_del_col": 5, "t_del_col_at": 3, "t_add_idx": 6, "t_del_idx": 4, "t_del_idx_at": 3,
        "t_add_bad": 2}
 BAD = ["str", "int", "column", "note", "index", "enumitem", "dict", "expression"]
@@ -464,6 +487,10 @@ def draw_op(rng: random.Random, eng: C09Engine, weights: Dict[str, float]) -> Li
         field = rng.choice(["name", "name", "schema", "alias"])
         pool = {"name": NAMES + ["d"], "schema": SCHEMAS + ["z"], "alias": ALIASES + ["", "w"]}[field]
         return ["rename", t, field, rng.choice(pool)]
+    if k == "read":
+        pool = [h for h, d in m.items() if d["kind"] in ("db", "db", "table", "ref", "enum")]
+        h = db if rng.random() < 0.6 else rng.choice(pool)
+        return ["read", h, rng.choice(["sql", "dbml"])]
     if k == "add_bad":
         return ["add_bad", db, rng.choice(BAD + ["none"])]
     if k == "delete_bad":
